@@ -189,7 +189,8 @@ def run_model(requests, nproc=None):
     if n == 0:
         return []
     nproc = max(1, min(nproc, (n + 199) // 200))
-    chunks = [requests[i * n // nproc:(i + 1) * n // nproc] for i in range(nproc)]
+    # round-robin split so that expensive neighbouring cases spread over the processes
+    chunks = [requests[i::nproc] for i in range(nproc)]
 
     def one(chunk):
         r = subprocess.run([MODEL_BIN], input="\n".join(chunk) + "\n", capture_output=True, text=True)
@@ -202,7 +203,10 @@ def run_model(requests, nproc=None):
 
     with ThreadPoolExecutor(nproc) as ex:
         outs = list(ex.map(one, chunks))
-    return [l for o in outs for l in o]
+    res = [None] * n
+    for i, o in enumerate(outs):
+        res[i::nproc] = o
+    return res
 
 
 def read_cases(path):
